@@ -304,82 +304,85 @@ Definition execute (L : lower) (q : qkey) (old : option memo) : M memo :=
 
 Definition memo_qres (m : memo) (v : val) : qres := (v, m_dur m, m_changed m).
 
-(* IngredientImpl::fetch *)
-Definition fetch (L : lower) (q : qkey) : M qres :=
+(* IngredientImpl::fetch_hot *)
+Definition fetch_hot (q : qkey) : M (option (memo * val)) :=
   s <- get ;;
-  (* fetch_hot *)
-  hot <- match d_memo s q with
-         | Some m =>
-             match m_val m with
-             | Some v =>
-                 match shallow_verify s m with
-                 | ShNo => ret None
-                 | u => m' <- update_shallow q m u ;; ret (Some (m', v))
-                 end
-             | None => ret None
-             end
-         | None => ret None
-         end ;;
+  match d_memo s q with
+  | Some m =>
+      match m_val m with
+      | Some v =>
+          match shallow_verify s m with
+          | ShNo => ret None
+          | u => m' <- update_shallow q m u ;; ret (Some (m', v))
+          end
+      | None => ret None
+      end
+  | None => ret None
+  end.
+
+(* IngredientImpl::fetch_cold *)
+Definition fetch_cold (L : lower) (q : qkey) : M (memo * val) :=
+  claim q ;;;
+  s1 <- get ;;
+  let old := d_memo s1 q in
+  ok <- match old with
+        | Some m =>
+            match m_val m with
+            | Some v => r <- verify_memo L q m ;;
+                        ret (if fst r then Some (snd r, v) else None)
+            | None => ret None
+            end
+        | None => ret None
+        end ;;
+  match ok with
+  | Some mv => release q ;;; ret mv
+  | None =>
+      m <- execute L q old ;;
+      release q ;;;
+      match m_val m with
+      | Some v => ret (m, v)
+      | None => nofuel (* unreachable: execute stores a value *)
+      end
+  end.
+
+(* IngredientImpl::fetch (refresh_memo, then record_use and the read stamp) *)
+Definition fetch (L : lower) (q : qkey) : M qres :=
+  hot <- fetch_hot q ;;
   r <- match hot with
        | Some mv => ret mv
-       | None =>
-           (* fetch_cold *)
-           claim q ;;;
-           s1 <- get ;;
-           let old := d_memo s1 q in
-           ok <- match old with
-                 | Some m =>
-                     match m_val m with
-                     | Some v => r <- verify_memo L q m ;;
-                                 let '(b, m') := r in
-                                 ret (if b then Some (m', v) else None)
-                     | None => ret None
-                     end
-                 | None => ret None
-                 end ;;
-           match ok with
-           | Some mv => release q ;;; ret mv
-           | None =>
-               m <- execute L q old ;;
-               release q ;;;
-               match m_val m with
-               | Some v => ret (m, v)
-               | None => nofuel (* unreachable: execute stores a value *)
-               end
-           end
+       | None => fetch_cold L q
        end ;;
-  let '(m, v) := r in
   (* self.eviction.record_use(id) *)
   modify (fun s => set_lru s (updN (d_lru s) (fst q) (lru_record_use (d_lru s (fst q)) (snd q)))) ;;;
-  ret (memo_qres m v).
+  ret (memo_qres (fst r) (snd r)).
 
-(* IngredientImpl::maybe_changed_after *)
+(* maybe_changed_after_cold *)
+Definition mca_cold (L : lower) (q : qkey) (since : rev) : M bool :=
+  claim q ;;;
+  s1 <- get ;;
+  match d_memo s1 q with
+  | None => release q ;;; ret true
+  | Some old =>
+      r <- verify_memo L q old ;;
+      if fst r then release q ;;; ret (changed_after (m_changed (snd r)) since)
+      else
+        match m_val old with
+        | None => release q ;;; ret true
+        | Some _ =>
+            mnew <- execute L q (Some old) ;;
+            release q ;;;
+            ret (changed_after (m_changed mnew) since)
+        end
+  end.
+
+(* IngredientImpl::maybe_changed_after (+ maybe_changed_after_hot) *)
 Definition mca (L : lower) (q : qkey) (since : rev) : M bool :=
   s <- get ;;
   match d_memo s q with
   | None => ret true
   | Some m =>
-      (* maybe_changed_after_hot *)
       match shallow_verify s m with
-      | ShNo =>
-          (* maybe_changed_after_cold *)
-          claim q ;;;
-          s1 <- get ;;
-          match d_memo s1 q with
-          | None => release q ;;; ret true
-          | Some old =>
-              r <- verify_memo L q old ;;
-              let '(b, m') := r in
-              if b then release q ;;; ret (changed_after (m_changed m') since)
-              else
-                match m_val old with
-                | None => release q ;;; ret true
-                | Some _ =>
-                    mnew <- execute L q (Some old) ;;
-                    release q ;;;
-                    ret (changed_after (m_changed mnew) since)
-                end
-          end
+      | ShNo => mca_cold L q since
       | u =>
           m' <- update_shallow q m u ;;
           ret (changed_after (m_changed m') since)
